@@ -9,8 +9,8 @@ from sv import registry as R
 from sv.props import c01
 
 PROPERTY = "C03"
-GEN = []
-PROPS = ["ScoresVerif/Props/C03.lean"]
+GEN = ["Frames"]
+PROPS = ["ScoresVerif/Props/C03.lean", "ScoresVerif/Props/C03Frames.lean"]
 DRIVER_DEPS = ["ScoresVerif.Driver.C01"]
 LEVEL = "proof"
 TRUSTED = ["xarray broadcasting by dimension name as modelled by SV.Arr.zipWith (tied by the correspondence)"]
